@@ -1,4 +1,4 @@
-import TinodeVerif.Model.TopicMe
+import TinodeVerif.Model.TopicFnd
 import TinodeVerif.Driver.Wire
 /-! Driver for the world stream (`TestVerifWorld`): one op per line, one output line per op, rendered exactly like the
 Go harness renders the real frames and state. -/
@@ -42,7 +42,7 @@ def cacheDigest (w : World) : List String :=
     let contacts := if t.isMe then
         s!" contacts[{" ".intercalate ((t.perSubs.map (fun (n, o, e) => s!"{n}:{bit o}:{bit e}")).mergeSort (· ≤ ·))}]" ++ (if t.loaded then " announced" else "")
       else ""
-    s!"cache {t.name} last={t.lastId} del={t.delId} owner={if t.owner = "" then "-" else t.owner} acs={showMode t.auth}/{showMode t.anon} pub={showTok t.pub} tr={showTok t.tr} tags=[{",".intercalate t.tags}]{st} users[{" ".intercalate us}] sess[{" ".intercalate ss}]{contacts}")
+    s!"cache {t.name} last={t.lastId} del={t.delId} owner={if t.owner = "" then "-" else t.owner} acs={showMode t.auth}/{showMode t.anon} pub={if t.isFnd then showFndPub t.fndPub t.fndPubMap else showTok t.pub} tr={showTok t.tr} tags=[{",".intercalate t.tags}]{st} users[{" ".intercalate us}] sess[{" ".intercalate ss}]{contacts}")
 
 def storeDigest (w : World) : List String :=
   (w.store.mergeSort (fun a b => a.name ≤ b.name)).map (fun r =>
@@ -59,12 +59,18 @@ def storeDigest (w : World) : List String :=
 def sessDigest (w : World) : List String :=
   w.sess.map (fun s => s!"{s.sid}\{{",".intercalate (s.subs.mergeSort (· ≤ ·))}}")
 
+/-- the Unicode classes on the alphabet the run uses (as in Driver/C19.lean) -/
+def isL (c : Char) : Bool := c.isAlpha || c.toNat ≥ 0xC0
+def isN (c : Char) : Bool := c.isDigit
+
 /-- a p2p topic is known to each participant by the other participant's name: the key `P:Ua:Ub` in a frame is replaced by
 the name under which the user of the receiving session addresses the topic (prepareBroadcastableMessage, Topic.original) -/
 def renameMe (uid : Uid) (f : String) : String :=
   let ws := f.splitOn " "
   let idx := if ws.headD "" = "ctrl" then 2 else 1
-  if uid ≠ "" ∧ ws.getD idx "" = uid then " ".intercalate (ws.set idx "me") else f
+  if uid ≠ "" ∧ ws.getD idx "" = uid then " ".intercalate (ws.set idx "me")
+  else if uid ≠ "" ∧ ws.getD idx "" = "fnd:" ++ uid then " ".intercalate (ws.set idx "fnd")
+  else f
 
 def renameFor (uid : Uid) (f : String) : String :=
   " ".intercalate (((renameMe uid f).splitOn " ").map (fun w =>
@@ -153,10 +159,15 @@ def step (st : WSt) (ws : List String) : Option (WSt × String) :=
     some ({ w := { maxSubs := mx } }, "ok")
   | "user" :: u :: au :: an :: rest =>
     let m := kv rest
-    let user : User := { uid := u, auth := (unmarshalKeep 0 au).1, anon := (unmarshalKeep 0 an).1, suspended := kvGet m "state" = "susp" }
+    let tagArg := kvGet m "tags"
+    let user : User := { uid := u, auth := (unmarshalKeep 0 au).1, anon := (unmarshalKeep 0 an).1, suspended := kvGet m "state" = "susp",
+                         tags := if tagArg = "" then [] else tagArg.splitOn "," }
     -- `state=missing`: the name of an account which is not there (any more); sessions may still claim it
     if kvGet m "state" = "missing" then some (st, "ok") else
-    some ({ st with w := { st.w with users := st.w.users ++ [user] } }, "ok")
+    -- store.Users.Create: the account comes with its subscription to `me` (and to `fnd`), both JPS (ModeCSelf)
+    some ({ st with w := { st.w with users := st.w.users ++ [user],
+                                     meSubs := st.w.meSubs ++ [{ user := u, want := modeCSelf, given := modeCSelf }],
+                                     fndSubs := st.w.fndSubs ++ [{ user := u, want := modeCSelf, given := modeCSelf }] } }, "ok")
   | "sess" :: s :: u :: lvl :: rest =>
     let sess : Sess := { sid := s, uid := u, lvl := levelOfStr lvl, bg := rest.contains "bg" }
     some ({ st with w := { st.w with sess := st.w.sess ++ [sess] } }, "ok")
@@ -175,7 +186,7 @@ def step (st : WSt) (ws : List String) : Option (WSt × String) :=
     some (st, render pre st c)
   | "unload" :: t :: _ =>
     let c : Ctx := { w := st.w }
-    let (c, msg) := if isMeKey st.w t then c.opUnloadMe t else c.opUnload t
+    let (c, msg) := if isMeKey st.w t then c.opUnloadMe t else c.opUnload t      -- (a `fnd` topic tells nobody, like a p2p topic)
     let c := c.deliverAll
     if msg ≠ "" then some ({ st with snap := none }, msg) else
     let pre := st.w
@@ -209,6 +220,16 @@ def step (st : WSt) (ws : List String) : Option (WSt × String) :=
           | "get", "me" :: "desc" :: _ => some (c0.opGetMeDesc a)
           | "get", "me" :: "sub" :: _ => some (c0.opGetMeSub a)
           | "setsub", "me" :: _ => some (c0.opSetSubMe a (kvGet m "user") (optStr (kvGet m "mode")))
+          | "sub", "fnd" :: _ => some (c0.opSubFnd a)
+          | "leave", "fnd" :: _ => some (c0.opLeaveFnd a (kvGet m "unsub" = "1"))
+          | "pub", "fnd" :: _ => some (c0.opPubFnd a)
+          | "get", "fnd" :: "desc" :: _ => some (c0.opGetFndDesc a)
+          | "get", "fnd" :: "sub" :: _ => some (c0.opGetFndSub a isL isN [("rest").toList])
+          | "setsub", "fnd" :: _ => some (c0.opSetSubFnd a (kvGet m "user") (optStr (kvGet m "mode")))
+          | "setdesc", "fnd" :: _ =>
+            -- a search query: `+` in the op line stands for a space
+            let sp (x : PrivArg) : PrivArg := match x with | .val q => .val (q.replace "+" " ") | y => y
+            some (c0.opSetDescFnd a { pub := sp (privArg (kvGet m "pub")), priv := sp (privArg (kvGet m "priv")) })
           | "newgrp", _ =>
             let o : NewGrpOpts := { auth := optStr (kvGet m "auth"), anon := optStr (kvGet m "anon"), want := kvGet m "want", priv := privArg (kvGet m "priv"), pub := privArg (kvGet m "pub"), chan := kvGet m "chan" = "1" }
             let tagArg := kvGet m "tags"
@@ -271,8 +292,8 @@ def step (st : WSt) (ws : List String) : Option (WSt × String) :=
             if isUser t then some (c0.opDelTopicP2P a t (kvGet m "hard" = "1"))
             else if isChanT then some (c0.opDelTopicC a t viaChn (kvGet m "hard" = "1"))
             else some (c0.opDelTopic a t (kvGet m "hard" = "1"))
-          | "fg", _ => some (c0.opFgAllM sid)
-          | "drop", _ => some (c0.opDropAllM sid)
+          | "fg", _ => some (c0.opFgAllF sid)
+          | "drop", _ => some (c0.opDropAllF sid)
           | _, _ => none
       match c with
       | none => none
